@@ -364,14 +364,14 @@ hooks_before = adapter_hooks[:]
 
 def mismatch(what, case, how, expected, got, extra=None):
     if len(mismatches) < 200:
-        m = {'impl': impl, 'what': what, 'expected': expected, 'got': got,
+        m = {'impl': impl, 'case_idx': childlib.CASE[0], 'what': what, 'expected': expected, 'got': got,
              'ctx': case['in'], 'how': how, 'case': case}
         if extra:
             m.update(extra)
         mismatches.append(m)
 
 
-for case in job['cases']:
+for childlib.CASE[0], case in enumerate(job['cases']):
     inp = case['in']
     ways = ['pos']
     if inp['entry'] == 'call' and inp['alt'] != 'notGiven':
